@@ -209,14 +209,23 @@ func (m *Manager) socket(namespace string, config *ClientSocketConfig) *clientSo
 	return socket
 }
 
-func (m *Manager) onEIOPacket(packets ...*eioparser.Packet) {
+// `epoch` is the value of `connEpoch` with the connection that the packets were received with.
+func (m *Manager) onEIOPacket(epoch uint64, packets ...*eioparser.Packet) {
 	m.parserMu.Lock()
 	defer m.parserMu.Unlock()
+
+	// The connection might have ended while this was waiting for its turn. The parser is reset
+	// then, and it might already be fed by the next connection.
+	if m.connEpoch.Load() != epoch {
+		return
+	}
 
 	for _, packet := range packets {
 		switch packet.Type {
 		case eioparser.PacketTypeMessage:
-			err := m.parser.Add(packet.Data, m.onParserFinish)
+			err := m.parser.Add(packet.Data, func(header *parser.PacketHeader, eventName string, decode parser.Decode) {
+				m.onParserFinish(epoch, header, eventName, decode)
+			})
 			if err != nil {
 				go m.onClose(ReasonParseError, err)
 				return
@@ -227,7 +236,7 @@ func (m *Manager) onEIOPacket(packets ...*eioparser.Packet) {
 	}
 }
 
-func (m *Manager) onParserFinish(header *parser.PacketHeader, eventName string, decode parser.Decode) {
+func (m *Manager) onParserFinish(epoch uint64, header *parser.PacketHeader, eventName string, decode parser.Decode) {
 	if header.Namespace == "" {
 		header.Namespace = "/"
 	}
@@ -236,7 +245,6 @@ func (m *Manager) onParserFinish(header *parser.PacketHeader, eventName string, 
 	if !ok {
 		return
 	}
-	epoch := m.connEpoch.Load()
 	if header.Type == parser.PacketTypeAck || header.Type == parser.PacketTypeBinaryAck {
 		go socket.onPacket(header, eventName, decode, epoch)
 		return
@@ -330,8 +338,10 @@ func (m *Manager) cleanup() {
 func (m *Manager) onClose(reason Reason, err error) {
 	m.debug.Log("Closed. Reason", reason)
 
-	m.connEpoch.Add(1)
+	// The callbacks of the connection are switched off before the epoch changes: what they
+	// let through before is of the epoch that ends here (see `connect`).
 	m.cleanup()
+	m.connEpoch.Add(1)
 	m.backoff.reset()
 
 	m.stateMu.Lock()
